@@ -180,19 +180,44 @@ Theorem C16_tail : forall oracle_req oracle_resp scheme_ok path hs w r tail w' h
     hs_data_read hlog = takeN n (hs_data_read hlog) ++ tail.
 Proof. exact client_done_shape. Qed.
 
+(* Parser hypotheses (premises, not axioms): P1 the consumed length lies inside the buffer; P2 a
+   complete head stays the same head when more bytes follow.  Then nothing that followed the head is
+   lost: tail ++ whatever arrives later = the stream minus the n bytes of the head ... *)
+Theorem C16_tail_stream : forall oracle_req oracle_resp,
+  (forall buf n a, oracle_resp buf = OComplete n a -> n <= blen buf) ->
+  forall scheme_ok path hs w tail w' hlog,
+  client_handshake oracle_req oracle_resp scheme_ok path hs w = (HsDone Client tail, w', hlog) ->
+  exists n raw, oracle_resp (hs_data_read hlog) = OComplete n raw /\ n <= blen (hs_data_read hlog) /\
+    forall later, tail ++ later = dropN n (hs_data_read hlog ++ later).
+Proof. intros oreq oresp P1. exact (client_tail_stream oreq oresp P1). Qed.
+
+(* ... and two handshakes over two segmentations of the same byte stream hand the same bytes to the
+   new socket (whatever part of the frames each saw together with the head) *)
+Theorem C16_tail_segmentation : forall oracle_req oracle_resp,
+  (forall buf n a, oracle_resp buf = OComplete n a -> n <= blen buf) ->
+  (forall buf more n a, oracle_resp buf = OComplete n a -> oracle_resp (buf ++ more) = OComplete n a) ->
+  forall s1 s2 path1 path2 hs1 hs2 w1 w2 tail1 tail2 w1' w2' hlog1 hlog2 later1 later2,
+  client_handshake oracle_req oracle_resp s1 path1 hs1 w1 = (HsDone Client tail1, w1', hlog1) ->
+  client_handshake oracle_req oracle_resp s2 path2 hs2 w2 = (HsDone Client tail2, w2', hlog2) ->
+  hs_data_read hlog1 ++ later1 = hs_data_read hlog2 ++ later2 ->
+  tail1 ++ later1 = tail2 ++ later2.
+Proof. intros oreq oresp P1 P2. exact (client_tail_segmentation oreq oresp P1 P2). Qed.
+
 (* the frame bytes that came with the head are the first thing the new socket decodes, however the
    transport cuts what follows: frames read from from_partially_read(tail) = reference decoding of
-   tail ++ later data (C05) *)
-Theorem C16_tail_first_read : forall oracle_req oracle_resp scheme_ok path hs w tail w' hlog ms acc fuel,
+   (stream after the head) = tail ++ later data (C05) *)
+Theorem C16_tail_first_read : forall oracle_req oracle_resp,
+  (forall buf n a, oracle_resp buf = OComplete n a -> n <= blen buf) ->
+  forall scheme_ok path hs w tail w' hlog ms acc fuel,
   client_handshake oracle_req oracle_resp scheme_ok path hs w = (HsDone Client tail, w', hlog) ->
   (mu (codec_new tail) (w_rds w') < fuel)%nat ->
-  exists n, tail = dropN n (hs_data_read hlog) /\
+  exists n raw, oracle_resp (hs_data_read hlog) = OComplete n raw /\
     drive fuel ms false acc (codec_new tail) w' =
-    frames_ref ms false acc None (tail ++ sched_data (w_rds w')) (sched_end (w_rds w')).
+    frames_ref ms false acc None (dropN n (hs_data_read hlog ++ sched_data (w_rds w'))) (sched_end (w_rds w')).
 Proof.
-  intros oreq oresp s path hs w tail w' hlog ms acc fuel H Hf.
-  destruct (client_done_shape _ _ _ _ _ _ _ _ _ _ H) as (_ & _ & subs & req & key & n & raw & _ & _ & _ & _ & _ & _ & _ & _ & Ht & _).
-  exists n. split; [exact Ht | exact (drive_ref ms false acc fuel (codec_new tail) w' Hf)].
+  intros oreq oresp P1 s path hs w tail w' hlog ms acc fuel H Hf.
+  destruct (client_tail_stream oreq oresp P1 _ _ _ _ _ _ _ H) as (n & raw & Ho & _ & Hs).
+  exists n, raw. split; [exact Ho|]. rewrite <- Hs. exact (drive_ref ms false acc fuel (codec_new tail) w' Hf).
 Qed.
 
 (* the wire only ever carries a prefix of the one request; nothing is read before it is out and flushed *)
@@ -294,6 +319,19 @@ Example C16_ex_handshake_mismatch :
   res = HsFail (HEProto SecWebSocketAcceptKeyMismatch).
 Proof. vm_compute. reflexivity. Qed.
 
+
+(* the example oracle satisfies the parser hypotheses P1 and P2 of C16_tail_stream / _segmentation *)
+Example C16_ex_P1P2 :
+  (forall buf n a, ex_oresp buf = OComplete n a -> n <= blen buf) /\
+  (forall buf more n a, ex_oresp buf = OComplete n a -> ex_oresp (buf ++ more) = OComplete n a).
+Proof. exact (prefix_oracle_P1P2 raw_resp ex_resp_bytes (mkRawResp 1 101 true ex_resp_hdrs)). Qed.
+
+(* the new socket of C16_ex_handshake decodes the frame that came with the head *)
+Example C16_ex_first_read :
+  drive 20 None false false (codec_new ex_frames) (mkWorld [] [] [] [] [])
+  = frames_ref None false false None (ex_frames ++ []) (sched_end []).
+Proof. vm_compute. reflexivity. Qed.
+
 Print Assumptions C16_request_shape.
 Print Assumptions C16_request_reads_back.
 Print Assumptions C16_required_once.
@@ -311,6 +349,8 @@ Print Assumptions C16_accept_single_char.
 Print Assumptions C16_verify_errors.
 Print Assumptions C16_client_stages.
 Print Assumptions C16_tail.
+Print Assumptions C16_tail_stream.
+Print Assumptions C16_tail_segmentation.
 Print Assumptions C16_tail_first_read.
 Print Assumptions C16_wire_prefix.
 Print Assumptions C16_completes.
